@@ -4,13 +4,14 @@
   sequence-number / read-size kernels and the cipher × MAC table come from PV/Generated/C03.lean, which the
   check regenerates from paramiko's source on every run.
 -/
-import PV.Model.PacketLemmas
+import PV.Model.PacketWrite
 import PV.Generated.C03
 namespace PV.Props.C03
 open PV PV.Packet
 namespace Gen
 export PV.Generated.C03 (Row outRows inRows build_packet_padding build_packet_length_field build_packet_zero_pad
-  send_next_seq read_next_seq read_remaining_etm read_remaining_aead read_bad_blocking read_classic_size)
+  send_next_seq read_next_seq read_remaining_etm read_remaining_aead read_bad_blocking read_classic_size
+  write_all_retry_n write_all_zero_limit)
 end Gen
 
 /-! ## the model's kernels are the ones in the source (translated from the AST) -/
@@ -58,6 +59,12 @@ theorem read_sizes_eq_generated (psize block macLen leftover : Nat) :
     classicSize psize macLen leftover = Gen.read_classic_size psize macLen leftover ∧
     badBlocking psize leftover block = Gen.read_bad_blocking psize leftover block := by
   refine ⟨rfl, rfl, rfl, rfl⟩
+
+/-- the two constants of the `write_all` loop the model uses are the ones in the source: after a timed-out /
+EAGAIN `send` the loop continues with `n = 0` (assigned on every retried iteration), and the zero-return limit -/
+theorem write_all_consts_eq_generated :
+    ((retryN : Nat) : Int) = Gen.write_all_retry_n ∧ ((zeroLimit : Nat) : Int) = Gen.write_all_zero_limit := by
+  decide
 
 /-! ## padding bounds and alignment: all payload lengths, all block sizes -/
 
@@ -199,6 +206,22 @@ theorem send_framing {p : Prims} {blk : p.CSt → Nat} {Paired : p.CSt → p.CSt
     refine ⟨by rw [hw, htake, hdrop], hal, ?_⟩
     rw [hw, htake, hdrop, List.length_append, A.aenc_len, hbody, be32_length]
     omega
+
+/-- **What reaches the socket is the framed packet.** `write_all` under ANY schedule of `send` outcomes (short
+writes of any size incl. 0, `socket.timeout`, `EAGAIN`, in any order): when it returns, the bytes the socket accepted
+are exactly the packet handed to it — so `send_framing` describes the wire; when it raises `EOFError` they are a
+proper prefix.  Nothing is skipped, repeated or reordered. -/
+theorem wire_is_the_framed_packet (sched : List SendEv) (packet : Bytes) :
+    (∀ wr, writeAll sched packet 0 [] = .ok wr → wr = packet) ∧
+    (∀ wr, writeAll sched packet 0 [] = .eof wr → ∃ k, wr = packet.take k ∧ k < packet.length) := by
+  obtain ⟨h1, h2⟩ := writeAll_spec sched packet 0 []
+  exact ⟨fun wr h => by simpa using h1 wr h, fun wr h => by simpa using h2 wr h⟩
+
+/-- a short write followed by a timeout and an EAGAIN (the schedule on which a stale `n` would skip bytes): the
+model delivers the whole packet; a broken pipe after 3 bytes leaves a 3-byte prefix -/
+example : writeAll [.accept 3, .timeout, .eagain, .accept 2, .accept 0, .accept 100] [1, 2, 3, 4, 5, 6, 7, 8] 0 []
+      = .ok [1, 2, 3, 4, 5, 6, 7, 8] ∧
+    writeAll [.accept 3, .timeout, .fail] [1, 2, 3, 4, 5, 6, 7, 8] 0 [] = .eof [1, 2, 3] := by decide
 
 /-- the hypotheses of `send_framing` are satisfiable: the toy primitives obey the laws and a toy etm sender
 with block size 16 and a 12-byte MAC sends a 4-byte message -/
